@@ -73,6 +73,24 @@ fn monitored<T>(f: impl FnOnce() -> T) -> (Result<T, String>, usize) {
     (r, MAX_REQ.load(Ordering::Relaxed))
 }
 
+/// Error text as part of a class signature: digits collapsed, spaces to dashes, at most 60 chars.
+fn err_class(e: &str) -> String {
+    let mut out = String::new();
+    let mut last_digit = false;
+    for ch in e.chars().take(60) {
+        if ch.is_ascii_digit() {
+            if !last_digit {
+                out.push('N');
+            }
+            last_digit = true;
+        } else {
+            last_digit = false;
+            out.push(if ch == ' ' { '-' } else { ch });
+        }
+    }
+    out
+}
+
 fn alloc_bound(input_len: usize) -> usize {
     64 * input_len + (1 << 20)
 }
@@ -188,6 +206,20 @@ fn parts_fingerprint(p: &Parts) -> String {
     hexs(&h.finalize())
 }
 
+fn table_digest(fields: &[Field]) -> String {
+    use sha2::{Digest, Sha256};
+    let mut h = Sha256::new();
+    for f in fields {
+        let role = match f.role {
+            wire::Role::Structural => 'S',
+            wire::Role::Effecting => 'E',
+            wire::Role::Authorising => 'A',
+        };
+        h.update(format!("{}:{}:{}:{};", f.name, f.off, f.len, role).as_bytes());
+    }
+    hexs(&h.finalize())
+}
+
 struct Ctx {
     r: Reporter,
     rng: ChaCha20Rng,
@@ -283,8 +315,8 @@ fn check_bytes(c: &mut Ctx, input: &[u8], branch: BranchId, op: &str, class: &st
         }
         Ok(Err(e)) => {
             c.r.violation(
-                &format!("C03:accepted-unserialisable:{ver}:{op}:{class}"),
-                format!("value accepted by Transaction::read cannot be written: {e}"),
+                &format!("C03:accepted-unserialisable:{ver}:{class}:{}", err_class(&e.to_string())),
+                format!("value accepted by Transaction::read cannot be written ({op} on {class}): {e}"),
                 replay_tx(input, branch, "Transaction::read→write"),
             );
             return Some(true);
@@ -449,7 +481,7 @@ fn positive(c: &mut Ctx, parts: &Parts, bytes: &[u8], branch: BranchId, origin: 
         let ev = json!({
             "k": "tx", "hex": hexs(bytes), "branch": txgen::branch_name(branch), "ver": ver,
             "txid": hexs(tx.txid().as_ref()), "auth": hexs(tx.auth_commitment().as_bytes()),
-            "fp": parts_fingerprint(&seen), "len": bytes.len(),
+            "fp": parts_fingerprint(&seen), "ft": table_digest(&wire::encode(parts).1), "len": bytes.len(),
             "n": [seen.vin.len(), seen.vout.len(), seen.spends.len(), seen.outputs.len(), seen.js.len(),
                   seen.orchard.as_ref().map_or(0, |b| b.actions.len()), seen.ironwood.as_ref().map_or(0, |b| b.actions.len())],
             "lock_time": seen.lock_time, "expiry": seen.expiry,
@@ -530,80 +562,63 @@ fn neg_case(c: &mut Ctx, input: &[u8], branch: BranchId, ver: Ver, op: &str, f: 
     c.r.count(&format!("op_{op}"), 1);
 }
 
-fn mutate_tx(c: &mut Ctx, parts: &Parts, bytes: &[u8], fields: &[Field], branch: BranchId, budget: usize) {
-    let ver = parts.ver;
-    let header_len = if ver.overwintered() { 8 } else { 4 };
-    if bytes.len() > 300_000 {
-        // huge encodings: only a handful of aimed mutants (each parse is expensive)
-        let counts: Vec<&Field> = fields.iter().filter(|f| f.kind == Kind::Count && f.len > 1).collect();
-        for f in counts.iter().take(3) {
-            let (n, _) = wire::cs_decode(&bytes[f.off..], false).unwrap();
-            if let Some(w) = wire::cs_width(n, 9) {
-                neg_case(c, &put(bytes, f, &w), branch, ver, "cs-noncanonical", Some(f), Some("non-canonical-compactsize"), header_len);
-            }
-            if let Some(w) = wire::cs_width(n, 5) {
-                if w.len() > f.len {
-                    neg_case(c, &put(bytes, f, &w), branch, ver, "cs-noncanonical", Some(f), Some("non-canonical-compactsize"), header_len);
-                }
-            }
-        }
-        neg_case(c, &bytes[..bytes.len() - 1], branch, ver, "truncate", fields.last(), None, header_len);
-        return;
-    }
-    let mut left = budget;
-    macro_rules! spend {
-        () => {
-            if left == 0 || !c.r.time_left() {
-                return;
-            }
-            left -= 1;
-        };
-    }
-    // one representative instance per field name, in random order
+enum Edit {
+    Cut(usize),
+    Put(Field, Vec<u8>),
+    Xor(usize, u8),
+    Splice(usize, Vec<u8>),
+    Branch(BranchId),
+}
+
+struct Mutant {
+    op: &'static str,
+    field: Option<Field>,
+    edit: Edit,
+    must_reject: Option<&'static str>,
+}
+
+fn plan_mutants(c: &mut Ctx, parts: &Parts, bytes: &[u8], fields: &[Field]) -> Vec<Mutant> {
+    let mut plan: Vec<Mutant> = vec![];
     let mut names: Vec<&'static str> = fields.iter().map(|f| f.name).collect::<BTreeSet<_>>().into_iter().collect();
     names.shuffle(&mut c.rng);
     let pick = |c: &mut Ctx, name: &str| -> Field {
         let v: Vec<&Field> = fields.iter().filter(|f| f.name == name).collect();
         (*v.choose(&mut c.rng).unwrap()).clone()
     };
+    let at = |o: usize| fields.iter().find(|f| f.off <= o && o < f.end()).cloned();
 
-    // (1) truncation at field boundaries ±1
+    // (1) truncation at field boundaries and one byte either side
     let mut cuts: BTreeSet<usize> = BTreeSet::new();
     for f in fields.iter().take(3).chain(fields.iter().rev().take(3)) {
         cuts.insert(f.off);
         cuts.insert(f.end());
     }
-    for _ in 0..4 {
+    for _ in 0..5 {
         let f = fields.choose(&mut c.rng).unwrap();
         cuts.insert(f.off);
     }
     for cut in cuts {
         for d in [-1i64, 0, 1] {
             let l = cut as i64 + d;
-            if l < 0 || l as usize >= bytes.len() {
-                continue;
+            if l >= 0 && (l as usize) < bytes.len() {
+                plan.push(Mutant { op: "truncate", field: at(l as usize), edit: Edit::Cut(l as usize), must_reject: None });
             }
-            spend!();
-            let f = fields.iter().find(|f| f.off <= l as usize && (l as usize) < f.end());
-            neg_case(c, &bytes[..l as usize], branch, ver, "truncate", f, None, header_len);
         }
     }
 
-    // (2) count fields: non-canonical re-encodings, huge values, ±1
-    let count_names: Vec<&'static str> = names.iter().copied().filter(|n| fields.iter().any(|f| f.name == *n && f.kind == Kind::Count)).collect();
-    for name in &count_names {
+    // (2) count fields: non-canonical re-encodings, huge values, +-1
+    for name in names.iter().copied().filter(|n| fields.iter().any(|f| f.name == *n && f.kind == Kind::Count)) {
         let f = pick(c, name);
         let (n, l) = wire::cs_decode(&bytes[f.off..], false).expect("own encoding");
         assert_eq!(l, f.len);
         for w in [3usize, 5, 9] {
             if w > f.len {
                 if let Some(e) = wire::cs_width(n, w) {
-                    spend!();
-                    neg_case(c, &put(bytes, &f, &e), branch, ver, "cs-noncanonical", Some(&f), Some("non-canonical-compactsize"), header_len);
+                    plan.push(Mutant { op: "cs-noncanonical", field: Some(f.clone()), edit: Edit::Put(f.clone(), e), must_reject: Some("non-canonical-compactsize") });
                 }
             }
         }
-        let huge: [(u64, Option<&str>); 6] = [
+        let huge: [(u64, Option<&'static str>); 6] = [
             (MAX_COMPACT_SIZE, None),
             (MAX_COMPACT_SIZE + 1, Some("oversized-compactsize")),
             (0xffff_ffff, Some("oversized-compactsize")),
@@ -611,70 +626,55 @@ fn mutate_tx(c: &mut Ctx, parts: &Parts, bytes: &[u8], fields: &[Field], branch:
             (u64::MAX, Some("oversized-compactsize")),
             (0x7fff_ffff_ffff_ffff, Some("oversized-compactsize")),
         ];
-        let (v, must) = huge[c.rng.gen_range(0..huge.len())];
-        spend!();
-        neg_case(c, &put(bytes, &f, &wire::cs(v)), branch, ver, "count-huge", Some(&f), must, header_len);
-        spend!();
-        neg_case(c, &put(bytes, &f, &wire::cs(n + 1)), branch, ver, "count-plus1", Some(&f), None, header_len);
+        for _ in 0..2 {
+            let (v, must) = huge[c.rng.gen_range(0..huge.len())];
+            plan.push(Mutant { op: "count-huge", field: Some(f.clone()), edit: Edit::Put(f.clone(), wire::cs(v)), must_reject: must });
+        }
+        plan.push(Mutant { op: "count-plus1", field: Some(f.clone()), edit: Edit::Put(f.clone(), wire::cs(n + 1)), must_reject: None });
         if n > 0 {
-            spend!();
-            neg_case(c, &put(bytes, &f, &wire::cs(n - 1)), branch, ver, "count-minus1", Some(&f), None, header_len);
+            plan.push(Mutant { op: "count-minus1", field: Some(f.clone()), edit: Edit::Put(f.clone(), wire::cs(n - 1)), must_reject: None });
         }
     }
 
-    // (3) amounts
+    // (3) amounts: out of range must be rejected; boundaries exercise the accept side
     for name in names.iter().copied().filter(|n| fields.iter().any(|f| f.name == *n && matches!(f.kind, Kind::AmountSigned | Kind::AmountUnsigned))) {
         let f = pick(c, name);
         let signed = f.kind == Kind::AmountSigned;
         let bad: Vec<i64> = if signed { vec![MAX_MONEY + 1, -MAX_MONEY - 1, i64::MIN, i64::MAX] } else { vec![MAX_MONEY + 1, -1, i64::MIN, i64::MAX, -MAX_MONEY] };
         for v in bad {
-            spend!();
-            neg_case(c, &put(bytes, &f, &v.to_le_bytes()), branch, ver, "amount-out-of-range", Some(&f), Some("out-of-range-amount"), header_len);
+            plan.push(Mutant { op: "amount-out-of-range", field: Some(f.clone()), edit: Edit::Put(f.clone(), v.to_le_bytes().to_vec()), must_reject: Some("out-of-range-amount") });
         }
         let ok: Vec<i64> = if signed { vec![MAX_MONEY, -MAX_MONEY, 0] } else { vec![MAX_MONEY, 0] };
         let v = *ok.choose(&mut c.rng).unwrap();
-        spend!();
-        let before = c.r.counter("mutants_accepted");
-        neg_case(c, &put(bytes, &f, &v.to_le_bytes()), branch, ver, "amount-boundary", Some(&f), None, header_len);
-        if c.r.counter("mutants_accepted") > before {
-            c.r.count("boundary_amounts_accepted", 1);
-        }
+        plan.push(Mutant { op: "amount-boundary", field: Some(f.clone()), edit: Edit::Put(f.clone(), v.to_le_bytes().to_vec()), must_reject: None });
     }
 
     // (4) one bit flip per field name (every field class)
     for name in names.iter().copied() {
         let f = pick(c, name);
-        if f.len == 0 {
-            continue;
+        if f.len > 0 {
+            let i = f.off + c.rng.gen_range(0..f.len);
+            plan.push(Mutant { op: "bitflip", field: Some(f), edit: Edit::Xor(i, 1 << c.rng.gen_range(0..8)), must_reject: None });
         }
-        spend!();
-        let mut v = bytes.to_vec();
-        let i = f.off + c.rng.gen_range(0..f.len);
-        v[i] ^= 1 << c.rng.gen_range(0..8);
-        neg_case(c, &v, branch, ver, "bitflip", Some(&f), None, header_len);
     }
 
-    // (5) field elements / points pushed out of range, flags with reserved bits, header corruption
+    // (5) field elements / points out of range, reserved flag bits, header corruption
     for name in names.iter().copied() {
         let f = pick(c, name);
         match f.kind {
             Kind::FieldElem | Kind::Point => {
-                spend!();
-                neg_case(c, &put(bytes, &f, &[0xff; 32]), branch, ver, "all-ones", Some(&f), None, header_len);
+                plan.push(Mutant { op: "all-ones", field: Some(f.clone()), edit: Edit::Put(f.clone(), vec![0xff; 32]), must_reject: None });
                 if f.kind == Kind::Point {
-                    spend!();
-                    neg_case(c, &put(bytes, &f, &[0; 32]), branch, ver, "all-zero", Some(&f), None, header_len);
+                    plan.push(Mutant { op: "all-zero", field: Some(f.clone()), edit: Edit::Put(f.clone(), vec![0; 32]), must_reject: None });
                 }
             }
             Kind::Flags => {
                 for b in [0x04u8, 0x08, 0x80, 0xff] {
-                    spend!();
-                    neg_case(c, &put(bytes, &f, &[bytes[f.off] | b]), branch, ver, "flags-reserved", Some(&f), None, header_len);
+                    plan.push(Mutant { op: "flags-reserved", field: Some(f.clone()), edit: Edit::Put(f.clone(), vec![bytes[f.off] | b]), must_reject: None });
                 }
             }
             Kind::Fixed | Kind::Branch => {
                 for _ in 0..2 {
-                    spend!();
                     let v: u32 = match c.rng.gen_range(0..6) {
                         0 => 0,
                         1 => 0x8000_0000,
@@ -683,28 +683,92 @@ fn mutate_tx(c: &mut Ctx, parts: &Parts, bytes: &[u8], fields: &[Field], branch:
                         4 => u32::from(*txgen::BRANCHES.choose(&mut c.rng).unwrap()),
                         _ => c.rng.r#gen(),
                     };
-                    neg_case(c, &put(bytes, &f, &v.to_le_bytes()), branch, ver, "header-value", Some(&f), None, header_len);
+                    plan.push(Mutant { op: "header-value", field: Some(f.clone()), edit: Edit::Put(f.clone(), v.to_le_bytes().to_vec()), must_reject: None });
                 }
             }
             _ => {}
         }
     }
 
-    // (6) random splice
+    // (6) random splices, (7) a foreign branch id (pre-v5 encodings do not carry it)
     for _ in 0..2 {
-        spend!();
         let a = c.rng.gen_range(0..bytes.len());
         let l = c.rng.gen_range(1..=16.min(bytes.len() - a));
-        let mut v = bytes.to_vec();
         let r = txgen::rand_bytes(&mut c.rng, l);
-        v[a..a + l].copy_from_slice(&r);
-        let f = fields.iter().find(|f| f.off <= a && a < f.end());
-        neg_case(c, &v, branch, ver, "splice", f, None, header_len);
+        plan.push(Mutant { op: "splice", field: at(a), edit: Edit::Splice(a, r), must_reject: None });
     }
-    // (7) parse with a different branch id (pre-v5 encodings do not carry it)
-    spend!();
     let other = *txgen::BRANCHES.choose(&mut c.rng).unwrap();
-    neg_case(c, bytes, other, ver, "other-branch", None, None, header_len);
+    plan.push(Mutant { op: "other-branch", field: None, edit: Edit::Branch(other), must_reject: None });
+    let _ = parts;
+    plan
+}
+
+fn mutate_tx(c: &mut Ctx, parts: &Parts, bytes: &[u8], fields: &[Field], branch: BranchId, budget: usize) {
+    let ver = parts.ver;
+    let header_len = if ver.overwintered() { 8 } else { 4 };
+    if bytes.len() > 300_000 {
+        // huge encodings: only a handful of aimed mutants (each parse is expensive)
+        let counts: Vec<&Field> = fields.iter().filter(|f| f.kind == Kind::Count && f.len > 1).collect();
+        for f in counts.iter().take(3) {
+            let (n, _) = wire::cs_decode(&bytes[f.off..], false).unwrap();
+            for w in [5usize, 9] {
+                if w > f.len {
+                    if let Some(e) = wire::cs_width(n, w) {
+                        neg_case(c, &put(bytes, f, &e), branch, ver, "cs-noncanonical", Some(f), Some("non-canonical-compactsize"), header_len);
+                    }
+                }
+            }
+        }
+        neg_case(c, &bytes[..bytes.len() - 1], branch, ver, "truncate", fields.last(), None, header_len);
+        return;
+    }
+    // Stratified selection: operators take turns until the per-transaction budget is used, so that a
+    // transaction with many fields does not spend everything on its first operator.
+    let mut plan = plan_mutants(c, parts, bytes, fields);
+    plan.shuffle(&mut c.rng);
+    let mut by_op: std::collections::BTreeMap<&'static str, Vec<Mutant>> = Default::default();
+    for m in plan {
+        by_op.entry(m.op).or_default().push(m);
+    }
+    let mut left = budget;
+    while left > 0 && !by_op.is_empty() && c.r.time_left() {
+        let ops: Vec<&'static str> = by_op.keys().copied().collect();
+        for op in ops {
+            if left == 0 {
+                break;
+            }
+            let v = by_op.get_mut(op).unwrap();
+            let Some(m) = v.pop() else {
+                by_op.remove(op);
+                continue;
+            };
+            left -= 1;
+            let mut b = branch;
+            let input: Vec<u8> = match &m.edit {
+                Edit::Cut(l) => bytes[..*l].to_vec(),
+                Edit::Put(f, new) => put(bytes, f, new),
+                Edit::Xor(i, x) => {
+                    let mut v = bytes.to_vec();
+                    v[*i] ^= x;
+                    v
+                }
+                Edit::Splice(a, r) => {
+                    let mut v = bytes.to_vec();
+                    v[*a..*a + r.len()].copy_from_slice(r);
+                    v
+                }
+                Edit::Branch(o) => {
+                    b = *o;
+                    bytes.to_vec()
+                }
+            };
+            let before = c.r.counter("mutants_accepted");
+            neg_case(c, &input, b, ver, m.op, m.field.as_ref(), m.must_reject, header_len);
+            if m.op == "amount-boundary" && c.r.counter("mutants_accepted") > before {
+                c.r.count("boundary_amounts_accepted", 1);
+            }
+        }
+    }
 }
 
 // --- block headers ------------------------------------------------------------------------------
@@ -907,7 +971,7 @@ fn header_max_vector(c: &mut Ctx) {
     let r = check_header_bytes(c, &ok, "solution-max-compactsize", None);
     c.r.case(&("hdr", "max", r), true);
     if r == Some(true) {
-        c.r.count("max_compactsize_vector_accepted", 1);
+        c.r.count("compactsize_max_vector_accepted", 1);
     } else if r == Some(false) {
         c.r.violation("C03:header:wellformed-rejected:max-compactsize-solution", "a header whose solution has exactly MAX_COMPACT_SIZE bytes was rejected", json!({"call": "BlockHeader::read", "solution_len": n}));
     }
